@@ -372,6 +372,8 @@ def make_histories(rng, env, pool, n):
                 a["cost"], a["decl"] = r.choice([U64 - 1, U64 - 20, U64 - 21, U64 - cur, U64 - cur - 1, U64 - cur + r.below(h["max"] + 2),
                                                  U64 - cur + h["max"], U64 - cur + h["max"] + 1, U64 - 1 - r.below(1 << 20)]) % U64, "O"
                 h["overflow"] = True
+                if r.chance(1, 2):
+                    h["max"], h["maxkind"] = 11000000000, "roomy"      # earlier attempts accepted as in the dry run: the wrap lands
             if a["cost"] != a["truth"]:
                 h["truthful"] = False
     return hs
